@@ -471,13 +471,55 @@ fn call_source(tool: &str, flags: &[String], rng: &mut Rng, pragma: bool) -> Str
     }
 }
 
+/// a coherent little mapfile (name + signature [+ enum, intrinsic, gvar] for one opcode) with one broken or unusual
+/// reference, and a source that calls the instruction with as many arguments as the signature has; the mapfile
+/// goes in by `-m` or by `#pragma mapfile`
+fn coherent_map_case(tool: &str, flags: &[String], rng: &mut Rng) -> (String, String, String, bool) {
+    let n = *rng.pick(&["0", "1", "3", "10", "999"]);
+    let sig = if rng.chance(1, 3) { *rng.pick(&["S(enum=\"NoSuchEnum\")", "SS(enum=\"NoSuchEnum\")", "S(enum=\"NoSuchEnum\")S", "s(enum=\"Missing\")", "S(enum=\"NoSuchEnum\")f"]) } else { *rng.pick(&["S(enum=\"NoSuchEnum\")", "S(enum=\"NoSuchEnum\")", "SS(enum=\"NoSuchEnum\")", "S(enum=\"bool\")", "S(enum=\"Color\")", "f(enum=\"Color\")", "S", "f", "Sf", "", "n", "N", "E", "ot", "to",
+                          "S(imm)", "s(arg0)S", "S_", "_S", "z(bs=4)", "m(bs=4;mask=0,0,0)", "p(bs=4)", "Q", "S(enum=\"\")", "S(enum=\"int\")", "S(enum=\"true\")", "C", "b---"]) };
+    let mut map = String::from(map_magic(tool)); map.push('\n');
+    let mut desc = format!("{} {} ", n, sig);
+    if rng.chance(1, 3) { map.push_str("!enum(name=\"Color\")\n1 red\n2 blue\n"); desc.push_str("+Color "); }
+    map.push_str(&format!("!ins_names\n{} foo\n", n));
+    match rng.below(6) { 0 => { map.push_str("7 foo\n"); desc.push_str("dup-name "); }, 1 => { map.push_str(&format!("{} bar\n", n)); desc.push_str("two-names "); }, 2 => { map.push_str("8 red\n9 true\n"); desc.push_str("name=const "); }, _ => {} }
+    map.push_str(&format!("!ins_signatures\n{} {}\n", n, sig));
+    match rng.below(8) {
+        0 => { map.push_str(&format!("!ins_intrinsics\n{} Jmp()\n", n)); desc.push_str("intrinsic-jmp "); },
+        1 => { map.push_str("!ins_intrinsics\n555 BinOp(op=\"+\";type=\"int\")\n"); desc.push_str("intrinsic-nosig "); },
+        2 => { map.push_str("!gvar_names\n10000 v\n10000 w\n!gvar_types\n10001 $\n"); desc.push_str("gvars "); },
+        3 => { map.push_str(&format!("!timeline_ins_names\n{} foo\n!timeline_ins_signatures\n{} {}\n", n, n, sig)); desc.push_str("timeline "); },
+        4 => { map.push_str(&format!("!ins_rets\n{} $\n", n)); desc.push_str("rets "); },
+        _ => {},
+    }
+    // arity: letters outside parentheses, padding excluded
+    let mut depth = 0; let mut arity = 0;
+    for c in sig.chars() { match c { '(' => depth += 1, ')' => depth -= 1, '_' | '-' => {}, c if depth == 0 && c.is_ascii_alphabetic() => arity += 1, _ => {} } }
+    let arity = if rng.chance(1, 6) { arity + 1 } else { arity };
+    let pool = ["true", "1", "red", "Color.red", "1.0", "\"s\"", "I0", "false", "NoSuchEnum.x", "blue", "offsetof(lbl)", "timeof(lbl)", "foo", "-1"];
+    let mk_args = |rng: &mut Rng| (0..arity).map(|_| if rng.chance(1, 2) { *rng.pick(&["true", "false", "red", "blue"]) } else { *rng.pick(&pool) }).collect::<Vec<_>>().join(", ");
+    let a1 = mk_args(rng); let a2 = mk_args(rng);
+    let pragma = rng.chance(1, 2) && !flags.iter().any(|f| f == "--mission");
+    let body = format!("  lbl:\n    foo({});\n    ins_{}({});\n", a1, n, a2);
+    let head = if pragma { format!("#pragma mapfile \"m.{}\"\n", map_ext(tool)) } else { String::new() };
+    let src = if flags.iter().any(|f| f == "--mission") { trivial_source(tool, flags) } else {
+        head + &match tool {
+            "truanm" => format!("entry {{ path: \"a.png\", has_data: false, img_width: 8, img_height: 8, img_format: 3, offset_x: 0, offset_y: 0, colorkey: 0, memory_priority: 0, low_res_scale: false, sprites: {{s0: {{id: 0, x: 0.0, y: 0.0, w: 8.0, h: 8.0}}}} }}\nscript script0 {{\n{}}}\n", body),
+            "trustd" => format!("meta {{ unknown: 0, anm_path: \"a.anm\", objects: {{}}, instances: [] }}\nscript main {{\n{}}}\n", body),
+            "trumsg" => format!("meta {{ table: {{ 0: {{script: \"main\"}} }} }}\nscript main {{\n{}}}\n", body),
+            _ => format!("script timeline0 {{ }}\nvoid sub0() {{\n{}}}\n", body),
+        }
+    };
+    (src, map, desc, pragma)
+}
+
 /// difficulty switches: lengths that differ between nesting levels, more cases than a mask has bits, empty cases
 fn diff_switch(rng: &mut Rng, depth: u32, float: bool) -> String {
     let n = *rng.pick(&[1usize, 2, 3, 4, 4, 4, 4, 5, 6, 8, 9, 33, 40, 70]);
     let mut parts = vec![];
     for k in 0..n {
         let c = rng.below(12);
-        parts.push(if k > 0 && c < 3 { String::new() }
+        parts.push(if (k > 0 || n > 1 && rng.chance(1, 8)) && c < 3 { String::new() }
                    else if depth > 0 && c < 6 { diff_switch(rng, depth - 1, float) }
                    else if c < 8 { (if float { "F1" } else { "I1" }).to_string() }
                    else if float { format!("{}.0", rng.below(9)) } else { format!("{}", rng.below(9)) });
@@ -489,9 +531,12 @@ fn diff_switch_case(rng: &mut Rng) -> (&'static str, &'static str, String, Strin
     let float = rng.chance(1, 4);
     let dd = 1 + rng.below(2) as u32;
     let ds = diff_switch(rng, dd, float);
-    let (tool, game) = *rng.pick(&[("truecl", "6"), ("truecl", "7"), ("truecl", "8"), ("truecl", "6"), ("truanm", "12"), ("truecl", "10")]);
+    let (tool, game) = *rng.pick(&[("truecl", "6"), ("truecl", "7"), ("truecl", "8"), ("truecl", "6"), ("truanm", "12"), ("truecl", "10"), ("trustd", "8"), ("trumsg", "6"), ("truecl", "7")]);
     let var = if float { "F0" } else { "I0" };
-    let stmt = match rng.below(7) {
+    let no_regs = tool == "trustd" || tool == "trumsg";
+    let stmt = match if no_regs { 7 + rng.below(2) } else { rng.below(9) } {
+        7 => match tool { "truanm" => format!("    ins_3({});\n", ds), "trustd" => format!("    ins_2({});\n", ds), "trumsg" => format!("    ins_1({}, 2);\n", ds), _ => format!("    ins_4(I0, {});\n", ds) },
+        8 => match tool { "trustd" => format!("    ins_0({}, 1.0, {});\n", ds, ds), "trumsg" => format!("    ins_2(0, {});\n", ds), _ => format!("    ins_10({}, {} + 1);\n", ds, ds) },
         0 | 1 => format!("    {} = {};\n", var, ds),
         2 => format!("    {} = {} + {};\n", var, ds, if float { "1.0" } else { "1" }),
         3 => format!("    if ({} == {}) {{ {} = {}; }}\n", ds, if float { "1.0" } else { "1" }, var, if float { "2.0" } else { "2" }),
@@ -502,6 +547,8 @@ fn diff_switch_case(rng: &mut Rng) -> (&'static str, &'static str, String, Strin
     let konst = if rng.chance(1, 4) { format!("const {} K = {};\n", if float { "float" } else { "int" }, diff_switch(rng, 1, float)) } else { String::new() };
     let src = match tool {
         "truanm" => format!("#pragma mapfile \"{}/map/any.anmm\"\n{}entry {{ path: \"a.png\", has_data: false, img_width: 8, img_height: 8, img_format: 3, offset_x: 0, offset_y: 0, colorkey: 0, memory_priority: 0, low_res_scale: false, sprites: {{}} }}\nscript s0 {{\n{}}}\n", repo_root(), konst, stmt),
+        "trustd" => format!("#pragma mapfile \"{}/map/any.stdm\"\n{}meta {{ unknown: 0, stage_name: \"s\", bgm: [{{path: \" \", name: \" \"}}, {{path: \" \", name: \" \"}}, {{path: \" \", name: \" \"}}, {{path: \" \", name: \" \"}}], objects: {{}}, instances: [] }}\nscript main {{\n{}}}\n", repo_root(), konst, stmt),
+        "trumsg" => format!("#pragma mapfile \"{}/map/any.msgm\"\n{}meta {{ table: {{ 0: {{script: \"main\"}} }} }}\nscript main {{\n{}}}\n", repo_root(), konst, stmt),
         _ if game == "10" => format!("meta {{ ecli: [], anim: [] }}\n{}void main() {{\n    int I0 = 0; float F0 = 0.0; int I1 = 1; float F1 = 1.0;\n{}}}\n", konst, stmt),
         _ => format!("#pragma mapfile \"{}/map/any.eclm\"\n{}script timeline0 {{}}\nvoid sub0() {{\n{}}}\n", repo_root(), konst, stmt),
     };
@@ -523,8 +570,13 @@ fn generate(seeds: &[Seed], budget: usize, tier: &str, rng: &mut Rng) -> Vec<Inp
     let configs: [(&str, &str, &[&str]); 12] = [("truanm", "6", &[]), ("truanm", "12", &[]), ("truanm", "17", &[]), ("trustd", "6", &[]), ("trustd", "8", &[]), ("trustd", "12", &[]),
         ("trumsg", "6", &[]), ("trumsg", "12", &[]), ("trumsg", "10", &["--ending"]), ("trumsg", "095", &["--mission"]), ("truecl", "6", &[]), ("truecl", "10", &[])];
     while out.len() < budget {
-        let c = g.below(124);
-        if c >= 116 {
+        let c = g.below(134);
+        if c >= 124 {
+            let (tool, game, flags) = if g.chance(1, 2) { ("truecl", *g.pick(&["6", "7", "8", "10", "6"]), &[][..]) } else { *g.pick(&configs) };
+            let flags: Vec<String> = flags.iter().map(|x| x.to_string()).collect();
+            let (src, map, desc, pragma) = coherent_map_case(tool, &flags, &mut g);
+            out.push(Input { tool: tool.into(), game: game.into(), flags, kind: if pragma { "map-reference-pragma" } else { "map-reference" }, desc, source: src.into_bytes(), mapfile: Some(map.into_bytes()) });
+        } else if c >= 116 {
             let (tool, game, src, desc) = diff_switch_case(&mut g);
             out.push(Input { tool: tool.into(), game: game.into(), flags: vec![], kind: "diff-switch", desc, source: src.into_bytes(), mapfile: None });
         } else if c >= 108 {
